@@ -39,9 +39,9 @@ type kModel struct {
 	orgs   map[string]bool
 	places map[string]bool
 	people map[string]*kPerson
-	pets   map[string]string   // pet -> owner
-	links  map[[2]string]bool  // (person, place)
-	rc     map[[2]string]int   // (person, place) -> count
+	pets   map[string]string  // pet -> owner
+	links  map[[2]string]bool // (person, place)
+	rc     map[[2]string]int  // (person, place) -> count
 }
 
 func (m *kModel) Clone() explore.Model {
@@ -126,17 +126,17 @@ func (m *kModel) Render() *dump.Tree {
 }
 
 type kitchen struct {
-	label                          string
-	feat                           kFeat
-	orgs, people, places, pets     *world.Store
-	mgr, prof                      *world.Store
-	nameIdx                        boltz.ReadIndex
-	rolesIdx                       boltz.SetReadIndex
-	lp, ll                         boltz.LinkCollection
-	rp, rl                         boltz.RefCountedLinkCollection
-	personIds, orgIds, placeIds    []string
-	petIds                         []string
-	ops                            []explore.Op
+	label                       string
+	feat                        kFeat
+	orgs, people, places, pets  *world.Store
+	mgr, prof                   *world.Store
+	nameIdx                     boltz.ReadIndex
+	rolesIdx                    boltz.SetReadIndex
+	lp, ll                      boltz.LinkCollection
+	rp, rl                      boltz.RefCountedLinkCollection
+	personIds, orgIds, placeIds []string
+	petIds                      []string
+	ops                         []explore.Op
 	// opKind/opId describe each operation for the property-specific oracles
 	opInfo []kOpInfo
 }
@@ -307,7 +307,9 @@ func (k *kitchen) buildOps() {
 			o := o
 			k.add(kOpInfo{"create", o, "orgs"}, explore.Op{
 				Name: "createOrg(" + o + ")",
-				Do:   func(ctx boltz.MutateContext) error { return k.orgs.Create(ctx, world.NewRec("orgs", o).With("label", "L")) },
+				Do: func(ctx boltz.MutateContext) error {
+					return k.orgs.Create(ctx, world.NewRec("orgs", o).With("label", "L"))
+				},
 				Apply: func(mm explore.Model) []string {
 					m := mm.(*kModel)
 					if m.orgs[o] {
@@ -339,7 +341,9 @@ func (k *kitchen) buildOps() {
 			l := l
 			k.add(kOpInfo{"create", l, "places"}, explore.Op{
 				Name: "createPlace(" + l + ")",
-				Do:   func(ctx boltz.MutateContext) error { return k.places.Create(ctx, world.NewRec("places", l).With("label", "L")) },
+				Do: func(ctx boltz.MutateContext) error {
+					return k.places.Create(ctx, world.NewRec("places", l).With("label", "L"))
+				},
 				Apply: func(mm explore.Model) []string {
 					m := mm.(*kModel)
 					if m.places[l] {
